@@ -112,14 +112,15 @@ static void op_MnScribble(const jv *in, jout *out) {
 static void op_MnNonceGen(const jv *in, jout *out) {
     int o = (int)jv_int(in, "o", 0), b = (int)jv_int(in, "b", 0), k = (int)jv_int(in, "k", 0), ret;
     secp256k1_musig_pubnonce pn; secp256k1_pubkey badpk; secp256k1_musig_keyagg_cache badcache; unsigned char badsk[32];
-    memset(&badpk, 0, sizeof(badpk)); memset(&badcache, 0x11, sizeof(badcache)); memset(badsk, 0xff, 32);
+    unsigned char zerosk[32];
+    memset(&badpk, 0, sizeof(badpk)); memset(&badcache, 0x11, sizeof(badcache)); memset(badsk, 0xff, 32); memset(zerosk, 0, 32);
     /* the buffer contents are the client's input: "fresh" in the abstract state means non-zero bytes */
     if (jv_int(in, "fresh", 0) && secp256k1_is_zero_array(MN.buf[b], 32)) { MN.fresh_ctr++; memset(MN.buf[b], 0x5b, 32); MN.buf[b][1] = (unsigned char)MN.fresh_ctr; }
     ret = secp256k1_musig_nonce_gen(CTX,
         mn_is(in, "secnonce_null") ? NULL : &MN.obj[o],
         mn_is(in, "pubnonce_null") ? NULL : &pn,
         mn_is(in, "rand_null") ? NULL : MN.buf[b],
-        mn_is(in, "seckey_invalid") ? badsk : (mn_is(in, "seckey_other") ? MN.sk[(k + 1) % MN.nkey] : MN.sk[k]),
+        mn_is(in, "seckey_invalid") ? badsk : mn_is(in, "seckey_zero") ? zerosk : (mn_is(in, "seckey_other") ? MN.sk[(k + 1) % MN.nkey] : MN.sk[k]),
         mn_is(in, "pubkey_null") ? NULL : (mn_is(in, "pubkey_invalid") ? &badpk : &MN.pk[k]),
         MN.msg,
         mn_is(in, "cache_bad") ? &badcache : &MN.cache[k],
